@@ -56,7 +56,7 @@ CHECKS = {
 }
 
 CHECKS['C03'] = {
-    'verus_units': ['eval', 'select', 'mapping'],
+    'verus_units': ['eval', 'select', 'mapping', 'valuetype'],
     'clause_prefixes': ['c03', 'value.', 'engine.', 'row.', 'select.'],
     'technique': 'contract-based deductive verification (Verus): arms of ExpressionExecutionEngine::evaluate extracted from /repo and proved against a recursive specification sem_eval written from the property text; structural induction through the contract of evaluate',
     'claim': 'Proof, for all expression trees, rows and values, that the extracted arms of evaluate (literal, column access, comparison, IS, arithmetic, unary, AND/OR, IN/NOT IN, subscript, CASE, aggregate reference) return exactly sem_eval(expression, row) - comparisons by value and false on NULL, NULL-propagating arithmetic with overflow and division by zero as errors, two-valued logic, IN as OR of =, first true CASE branch, 1-based subscripts - or an error when sem_eval has no value. Function calls: the arguments are evaluated left to right and the first one without a value ends the call; make_timestamp (seven INT parts as documented, a part that does not fit its field gives NULL, never a wrapped date), greatest / least (same-type pairs, NULL gives NULL), abs and pow (exact or no value), sqrt, length (characters), upper / lower, EXTRACT year..second, array_length are proved equal to sem_function written from the README; casts (TypeConversion) are proved equal to sem_convert (text is parsed as the target type, an interval counts its seconds, a value of the target type is itself, anything renders as text, every other combination has no value); array_cat / array_append / array_prepend are proved against relational specifications (element order, element type check); for each of these functions a call with the documented number of arguments is proved to reach the arm of its function (rule E3d).',
@@ -71,7 +71,7 @@ CHECKS['C03'] = {
     'unproved': ['evaluate arms FunctionCall for regexp_matches, array, array_unique, now, EXTRACT(EPOCH), date_trunc', 'parser_tree_converter lowering, projection naming'],
 }
 CHECKS['C09'] = {
-    'verus_units': ['eval', 'follow', 'select', 'engine', 'extract', 'parser', 'tokenizer', 'converter', 'executor', 'aggregate', 'aggdispatch', 'aggresult', 'join', 'joinload', 'mapping'],
+    'verus_units': ['eval', 'follow', 'select', 'engine', 'extract', 'parser', 'tokenizer', 'converter', 'valuetype', 'executor', 'aggregate', 'aggdispatch', 'aggresult', 'join', 'joinload', 'mapping'],
     'only_safety': True,
     'clause_prefixes': ['c09'],
     'technique': 'contract-based deductive verification (Verus): absence of arithmetic overflow, division by zero, failed callee preconditions (unwrap, indexing, unreachable!) in every extracted function',
@@ -136,11 +136,11 @@ CHECKS['C11'] = {
 }
 
 CHECKS['C01'] = {
-    'verus_units': ['extract'],
+    'verus_units': ['extract', 'valuetype'],
     'clause_prefixes': ['c01'],
     'technique': 'contract-based deductive verification (Verus): ColumnParsing::extract_using_regex, the Regex / MultiRegex-array / MultiRegex-timestamp arms of ColumnParsing::extract, ColumnDefinition::default_value and TableDefinition::extract extracted from /repo against a specification of "the referenced group of the referenced pattern, typed"',
     'claim': 'Proof for all column definitions, match results and lines that each regex/split column holds exactly sem_ref(type, line, reference, default): the text of the referenced group of the referenced pattern converted by the declared type (BOOLEAN = presence, NULL when not a literal, DEFAULT/NULL when pattern or group did not take part), arrays position by position, TIMESTAMP columns built from exactly the integer groups as mathematical integers (an out-of-range part gives the default, never a wrapped value), TRIM on TEXT only, and that the row is all columns in definition order or empty at the first NULL NOT NULL column.',
-    'note': 'Trusted: the regex crate (leftmost match, group text, split) behind the VCaptures / VRegexResults stand-ins, ParsingInput::new (not extracted), ValueType::parse as an uninterpreted function, chrono civil-time construction (sem_civil), str::trim. Unproved: the month-name branch of the timestamp arm (stubbed), CREATE TABLE syntax -> definition mapping (parser).',
+    'note': 'Trusted: the regex crate (leftmost match, group text, split) behind the VCaptures / VRegexResults stand-ins, ValueType::parse as an uninterpreted function inside unit extract (its body is under contract in unit valuetype: the result has the requested type or is NULL, TEXT verbatim, INT / REAL / BOOLEAN by the std parsers, INTERVAL needs three fitting parts; the chrono TIMESTAMP parser is a stand-in), chrono civil-time construction (sem_civil), str::trim. Unproved: the month-name branch of the timestamp arm (stubbed), CREATE TABLE syntax -> definition mapping (parser).',
     'level': 'proof',
     'explanation': 'sem_column / sem_row are written from the property statement over an abstract match result; the extracted code is proved equal to them, loop invariants spliced by ordinal.',
     'trusted': COMMON_TRUST + ['regex crate semantics behind stand-ins', 'ValueType::parse, str::trim, chrono NaiveDate/NaiveTime construction as uninterpreted functions'],
